@@ -251,13 +251,21 @@ def generate(prop, tier, seed, n_examples, stats, known_clauses, shrink_budget):
         return None
     # confirm the shrunk case fails when run directly, bypassing Hypothesis
     fail = state["fail"]
-    again = run_case(prop, fail.case, Ctx(prop.ID, known_clauses, tier))
-    if again is None:
-        raise HarnessError(
-            "flaky: shrunk failing case passes when re-run directly: "
-            + canon(fail.case)[:2000]
-        )
-    return again
+    for _ in range(3):
+        again = run_case(prop, fail.case, Ctx(prop.ID, known_clauses, tier))
+        if again is not None:
+            return again
+    # The failure was observed against the real code inside the run but does
+    # not reproduce from the saved input: the behaviour depends on something
+    # outside the case (memory layout, thread timing).  It is still reported,
+    # flagged as non-deterministic, with the case in which it was observed.
+    fail.message = (
+        "[observed during the run; NOT reproduced by 3 direct replays of the "
+        "saved case - the library's behaviour depends on state outside the "
+        "input] " + fail.message
+    )
+    fail.details = dict(fail.details, nondeterministic=True)
+    return fail
 
 
 def worker_seed(seed, prop_id, i):
